@@ -1,5 +1,6 @@
 import MetricsVerif.Driver.Util
 import MetricsVerif.Model.StatsdAgg
+import MetricsVerif.Model.StatsdHist
 
 namespace MetricsVerif.Driver.StatsdAgg
 open MetricsVerif.Driver MetricsVerif.StatsdAgg
@@ -33,6 +34,35 @@ def handle (args : List String) : Option String :=
       | 's' :: r => (String.ofList r).toNat?.map GCall.set
       | _ => none) calls
     pure (showList toString (gaugeRun calls 0))
+  | ["gaugeops", calls] => do
+    -- s<bits> set, i<bits> increment, d<bits> decrement, f flush; f64 arithmetic on bit patterns
+    let calls ← listTok (fun c => match c.toList with
+      | ['f'] => some GOp.flush
+      | 's' :: r => (String.ofList r).toNat?.map GOp.set
+      | 'i' :: r => (String.ofList r).toNat?.map GOp.incr
+      | 'd' :: r => (String.ofList r).toNat?.map GOp.decr
+      | _ => none) calls
+    let add := fun (a b : Nat) => (Float.ofBits a.toUInt64 + Float.ofBits b.toUInt64).toBits.toNat
+    let sub := fun (a b : Nat) => (Float.ofBits a.toUInt64 - Float.ofBits b.toUInt64).toBits.toNat
+    pure (showList toString (gaugeOps add sub calls 0))
+  | ["hist", b, recs, nflush, sched] => do
+    -- histogram (sampling off): recorder threads `v+v+…` (`-` = none), then ONE flusher doing `nflush` State::flush'es
+    let b ← b.toNat?
+    let recs ← listTok (fun r => if r == "-" then some [] else (r.splitOn "+").mapM String.toNat?) recs
+    let nflush ← nflush.toNat?
+    let sched ← schedTok sched
+    let f := recs.length
+    let answers := StatsdHist.findAnswers b recs sched nflush []
+    if answers.length != nflush then none else
+    let progs := StatsdHist.progsOf recs answers
+    let (s, labels) := sched.foldl (fun (acc : Bucket.Sys × List String) tid =>
+        let lbl := match acc.1.threads[tid]? with | some t => t.pc.label | none => "nothread"
+        (StatsdHist.grant acc.1 tid, acc.2 ++ [lbl])) (Bucket.init b progs, [])
+    let showVals (vs : List Nat) : String := if vs.isEmpty then "[]" else "[" ++ "/".intercalate (vs.map toString) ++ "]"
+    let res := StatsdHist.flusherResults s f
+    let fl := StatsdHist.flushesOf (StatsdHist.emptyAnswers res) (StatsdHist.clearedOf res)
+    let outs := showList (fun (o : Option (List Nat)) => match o with | none => "skip" | some vs => showVals vs) fl
+    pure s!"{".".intercalate labels} | {outs} | visible={showVals (Bucket.visible s)} | consistent={StatsdHist.consistent s f answers}"
   | _ => none
 
 end MetricsVerif.Driver.StatsdAgg
